@@ -4,6 +4,8 @@
 
 """Wrapper around the socket.socket interface that provides buffering"""
 
+import errno
+import socket as _socket
 from collections import deque
 
 
@@ -49,6 +51,30 @@ class BufferedSocket(object):
         self._write_queue.clear()
         if buf:
             self.socket.sendall(buf)
+
+    def flush_async(self):
+        """
+        Send all buffered data, generator version for non-blocking sockets
+
+        Yields 1 every time the socket would block (or accepted only part of
+        the data), finishes when everything was handed to the socket.
+        Unlike :py:meth:`flush` it never loses track of partially sent data.
+        """
+        buf = bytearray()
+        for i in self._write_queue:
+            buf += i
+        self._write_queue.clear()
+        while buf:
+            try:
+                sent = self.socket.send(buf)
+            except _socket.error as why:
+                if why.args[0] in (errno.EWOULDBLOCK, errno.EAGAIN):
+                    yield 1
+                    continue
+                raise
+            buf = buf[sent:]
+            if buf:
+                yield 1
 
     def recv(self, bufsize):
         """Receive data from socket (socket emulation)"""
